@@ -574,7 +574,7 @@ int runCheck(const Opts &o, Check<Inst> &c) {
   std::vector<Violation> crashViol;
   for (int k = 0; k < n; ++k) spawn(k);
   int live = n;
-  int crashes = 0, hangs = 0, confirmedHangs = 0;
+  int crashes = 0, hangs = 0, confirmedHangs = 0, slowInstances = 0;
   const int maxHangs = 6;
   while (live > 0) {
     bool progressed = false;
@@ -613,14 +613,17 @@ int runCheck(const Opts &o, Check<Inst> &c) {
         if (hung) {
           // a timed-out instance is re-run alone with ten times the limit before it is called a hang; once one instance has
           // been confirmed that way, further time-outs of this pass are taken as hangs directly, and after maxHangs the pass stops
-          ++hangs;
           if (confirmedHangs < 1) {
             auto again = evalIsolated(o, c, inst, c.instanceTimeout * 10, "hang" + std::to_string(k));
+            bool stillHangs = false;
             for (auto &v : again) {
-              if (v.cls == "hang") ++confirmedHangs;
+              if (v.cls == "hang") { ++confirmedHangs; stillHangs = true; }
               crashViol.push_back(v);
             }
+            if (stillHangs) ++hangs;
+            else if (++slowInstances > 64) { ++hangs; }  // merely slow instances: tolerated, but not without bound
           } else {
+            ++hangs;
             crashViol.push_back({"hang", c.encode(inst), "did not finish within " + std::to_string(c.instanceTimeout) + " s (earlier time-outs of this pass were confirmed with a tenfold limit)"});
           }
         } else {
@@ -689,6 +692,7 @@ int runCheck(const Opts &o, Check<Inst> &c) {
   R.classCounts = cc;
   if (crashes > 48 || hangs >= maxHangs) R.exhaustive = false;
   R.counters["worker_crashes_or_hangs"] = crashes;
+  R.counters["slow_instances_that_finished_on_the_solitary_rerun"] = slowInstances;
   // distinct non-trivial
   {
     std::vector<uint64_t> all;
